@@ -146,3 +146,47 @@ Theorem C09_closed_subpath_joins_end_to_start_partial : forall zarr, zarr <> [] 
      (exists buf, zc = ZMove p0 :: map ZLine buf ++ [ZClose] /\ zpieces zo = [[p0]; buf ++ [last pts p0; p0]])).
 Proof. exact dash_closed_subpath_exact. Qed.
 Print Assumptions C09_closed_subpath_joins_end_to_start_partial.
+
+(* ---- closed subpaths: which outcome, decided by the pattern (DashClosedSpec.v) ---- *)
+Require Import RQ.DashClosedSpec.
+
+(* closed_pieces_spec is defined from the pattern and the vertex list only: with L the length of the closed polyline,
+   if the subpath starts inside a dash: the whole closed outline when the pattern is on over [0,L); else the pieces of the
+   explicitly closed polyline with the last piece joined to the first when the pattern is on at the end; else those
+   pieces, the first emitted last; if it starts in a gap: those pieces as they are.  Close appears exactly in the first case *)
+Theorem C09_closed_subpath_pieces_are_decided_by_the_pattern : forall zarr, zarr <> [] -> Forall (fun a => 1 <= a) zarr -> ztotal zarr <= i24 ->
+  forall p0 pts w off, Z.abs off <= i24 -> off mod ztotal zarr <= 131071 -> pt_ok p0 -> Forall pt_ok pts -> poly_axis p0 (pts ++ [p0]) ->
+  let o := off mod ztotal zarr in
+  exists zc,
+    dash_path (map of_int zarr) (mk_path (MoveTo (ept p0) :: map LineTo (map ept pts) ++ [Close]) w) (of_int off) =
+      Ok (mk_path (map eop zc) NonZero) /\
+    znorm (zpieces zc) = closed_pieces_spec zarr o p0 pts /\
+    (closed_whole zarr o p0 pts = true -> zc = ZMove p0 :: map ZLine (zseg_pairs p0 pts) ++ [ZClose]) /\
+    (closed_whole zarr o p0 pts = false -> 0 < plen p0 (pts ++ [p0]) -> ~ In ZClose zc).
+Proof. exact dash_closed_subpath_spec. Qed.
+Print Assumptions C09_closed_subpath_pieces_are_decided_by_the_pattern.
+
+(* "a pattern that is 'on' over the whole subpath giving the complete closed outline" - and only such a pattern *)
+Theorem C09_closed_outline_iff_pattern_on_all_the_way_round : forall zarr, zarr <> [] -> Forall (fun a => 1 <= a) zarr -> ztotal zarr <= i24 ->
+  forall p0 pts w off out, Z.abs off <= i24 -> off mod ztotal zarr <= 131071 -> pt_ok p0 -> Forall pt_ok pts ->
+  poly_axis p0 (pts ++ [p0]) -> 0 < plen p0 (pts ++ [p0]) ->
+  let o := off mod ztotal zarr in
+  dash_path (map of_int zarr) (mk_path (MoveTo (ept p0) :: map LineTo (map ept pts) ++ [Close]) w) (of_int off) = Ok out ->
+  (In Close (p_ops out) <->
+   starts_in_dash zarr o = true /\ forall t, 0 <= t < plen p0 (pts ++ [p0]) -> pattern_on zarr o t = true).
+Proof. exact closed_outline_iff_whole_on. Qed.
+Print Assumptions C09_closed_outline_iff_pattern_on_all_the_way_round.
+
+(* "a piece reaching the end is joined to a piece starting at the beginning" *)
+Theorem C09_end_piece_is_joined_to_start_piece : forall zarr, zarr <> [] -> Forall (fun a => 1 <= a) zarr -> ztotal zarr <= i24 ->
+  forall p0 pts w off, Z.abs off <= i24 -> off mod ztotal zarr <= 131071 -> pt_ok p0 -> Forall pt_ok pts -> poly_axis p0 (pts ++ [p0]) ->
+  let o := off mod ztotal zarr in
+  let L := plen p0 (pts ++ [p0]) in
+  starts_in_dash zarr o = true -> (exists t, 0 <= t < L /\ pattern_on zarr o t = false) -> pattern_on zarr o (L - 1) = true ->
+  exists zc s mid e,
+    dash_path (map of_int zarr) (mk_path (MoveTo (ept p0) :: map LineTo (map ept pts) ++ [Close]) w) (of_int off) =
+      Ok (mk_path (map eop zc) NonZero) /\
+    pieces_spec zarr o p0 (pts ++ [p0]) = (p0 :: s) :: mid ++ [e ++ [p0]] /\
+    znorm (zpieces zc) = mid ++ [e ++ p0 :: s].
+Proof. exact closed_end_piece_joined_to_start_piece. Qed.
+Print Assumptions C09_end_piece_is_joined_to_start_piece.
